@@ -231,6 +231,10 @@ func checkC08(c *Check) {
 	c.Rule("R5", "E1 guard-cut", "a subtree is created only for a non-optional, non-last segment with at least one element; a match-all subtree only when no ancestor is match-all", 4)
 	checkShapeGuards(c)
 
+	// ---- R9 the duplicate tests rest on the sibling order
+	c.Rule("R9", "shared with C01 (R2)", "hasMatchAllLeaf/hasMatchAllSubtree look at the LAST sibling only, so a second match-all is refused only if siblings are kept ordered by rank with the match-all last: the insertion rule of C01 is part of this property", 3)
+	c.Share("C01", []string{"R2"}, 3)
+
 	// ---- R8 every user expression is compiled on its own
 	c.Rule("R8", "E3 provenance", "each user expression is handed to regexp.Compile by itself (its error handled under R1) before it is spliced into the segment pattern, so text that only compiles after splicing — e.g. \"x)(y\" — is rejected", 1)
 	if cons := p.Fn("route", "constructMatchStyleRegex"); cons != nil {
